@@ -333,7 +333,7 @@ Proof.
   unfold dirty_dirs. intros H c Hc. apply app_eq_nil in H. destruct H as [H _].
   assert (Hn : flat_map (fun p => prefixes (dirname p)) (opt_list (c_old c) ++ opt_list (c_new c)) = []).
   { clear -H Hc. induction cs as [|x r IH]; [contradiction|]. simpl in H. apply app_eq_nil in H.
-    destruct H as [H1 H2]. destruct Hc as [->|Hc]; auto. }
+    destruct H as [H1 H2]. destruct Hc as [->|Hc]; auto. apply app_eq_nil in H1. apply H1. }
   destruct (c_old c) as [p|]; [simpl in Hn; destruct (dirname p); discriminate|].
   destruct (c_new c) as [p|]; [simpl in Hn; destruct (dirname p); discriminate|]. auto.
 Qed.
